@@ -34,15 +34,14 @@ func (l *LRAPlanner) Process(ctx *shared.PlannerContext) (sql.ISelect, error) {
 	var col sql.SQLObject
 	switch l.Func {
 	case "rate":
-		col = sql.NewRawObject(fmt.Sprintf("toFloat64(COUNT()) / %f",
-			float64(l.Duration.Milliseconds())/1000))
+		// per second of the range, whatever its unit: Milliseconds()/1000 truncated [1500us] to 0.001 and [500us] to 0
+		col = sql.NewRawObject(fmt.Sprintf("toFloat64(COUNT()) * 1000000000 / %d", l.Duration.Nanoseconds()))
 		break
 	case "count_over_time":
 		col = sql.NewRawObject("toFloat64(COUNT())")
 		break
 	case "bytes_rate":
-		col = sql.NewRawObject(fmt.Sprintf("toFloat64(sum(length(_string))) / %f",
-			float64(l.Duration.Milliseconds())/1000))
+		col = sql.NewRawObject(fmt.Sprintf("toFloat64(sum(length(_string))) * 1000000000 / %d", l.Duration.Nanoseconds()))
 		break
 	case "bytes_over_time":
 		col = sql.NewRawObject("toFloat64(sum(length(_string)))")
